@@ -194,7 +194,7 @@ func genProgram(r *Rng, group bool) *World {
 				op.MW = append(append([]string{}, pairBase...), pairExtra)
 				op.N = 2
 				pairBase = nil
-			} else if len(op.MW) > 0 && op.Via != "" && r.Pct(35) {
+			} else if len(op.MW) > 0 && r.Pct(35) { // through a facade or directly on the Router
 				pairBase, pairVia, pairExtra = op.MW, op.Via, tag("X")
 				op.N = 1
 				op.Args = []string{pairExtra}
@@ -343,25 +343,31 @@ func (p *progRun) step(op *Op) (pan string) {
 				short = op.Methods[0]
 			}
 		}
+		// the list for a call on the Router itself; such calls, too, can be one half of a
+		// "base, base+extra" pair on one backing array
+		plain := e.MWs(flat...)
+		if f == nil && op.N != 0 {
+			plain = p.mwFor(op)
+		}
 		switch {
 		case p.desugar:
-			r.Handle(full, h, e.MWs(flat...), op.Methods...)
+			r.Handle(full, h, plain, op.Methods...)
 		case f == nil:
 			switch short {
 			case "GET":
-				r.Get(full, h, e.MWs(flat...)...)
+				r.Get(full, h, plain...)
 			case "POST":
-				r.Post(full, h, e.MWs(flat...)...)
+				r.Post(full, h, plain...)
 			case "DELETE":
-				r.Delete(full, h, e.MWs(flat...)...)
+				r.Delete(full, h, plain...)
 			case "PUT":
-				r.Put(full, h, e.MWs(flat...)...)
+				r.Put(full, h, plain...)
 			case "PATCH":
-				r.Patch(full, h, e.MWs(flat...)...)
+				r.Patch(full, h, plain...)
 			case "ANY":
-				r.Any(full, h, e.MWs(flat...)...)
+				r.Any(full, h, plain...)
 			default:
-				r.Handle(full, h, e.MWs(flat...), op.Methods...)
+				r.Handle(full, h, plain, op.Methods...)
 			}
 		case f.isRes:
 			switch short {
